@@ -8,7 +8,7 @@ tmp=$(mktemp -d /tmp/altverif.XXXXXX)
 rsync -a --exclude .git --exclude .build --exclude replays /verif/ $tmp/
 cd $tmp || exit 2
 GOFLAGS=-mod=mod go mod edit -replace github.com/elastic/go-txfile=$repo
-VERIF_ROOT=$tmp ./check "$@"
+VERIF_ROOT=$tmp VERIF_REPO_DIR=$repo ./check "$@"
 rc=$?
 if [ -d $tmp/replays ]; then mkdir -p /tmp/altreplays; cp -r $tmp/replays/* /tmp/altreplays/ 2>/dev/null; fi
 mkdir -p /tmp/altevidence; cp $tmp/evidence/*.json /tmp/altevidence/ 2>/dev/null
